@@ -693,7 +693,7 @@ func init() {
 		o.catgLitFields(dCosign, "", "newPayload", "critical", 0, "cosign_critical_literal", []string{"Image", "Type"}, map[string]int{"{...}": 1, "signatureType": 2})
 		o.catgLitFields(dCosign, "", "newPayload", "image", 0, "cosign_image_literal", []string{"DockerManifestDigest"}, map[string]int{"manifestDigest": 1})
 		o.catgGuards(dCosign, "", "newPayload", "cosign_np_guards", map[string]int{
-			"optional:=opts.Flags.GetString(\"optional\");optional!=\"\"":                   1,
+			"optional:=opts.Flags.GetString(\"optional\");optional!=\"\"":      1,
 			"err:=json.Unmarshal([]byte(optional),&payload.Optional);err!=nil": 2,
 			"payload.Optional==nil": 3})
 		{
@@ -799,7 +799,15 @@ func init() {
 		o.catgArgClasses(dRpm, "", "verify", "rpmutils.Verify", 0, "rpm_verify_args", map[string]int{"f": 1, "opts.TrustedPgp": 2})
 		o.catgGuards(dRpm, "", "verify", "rpm_verify_guards", map[string]int{"err!=nil": 1, "len(sigs)==0": 2, "seen[sig.KeyId]": 3, "sig.Signer==nil": 4, "!opts.NoChain": 5})
 		o.catgSliceHigh(funcSpec{dir: dRpm, name: "nevra", coqName: "rpm_nevra_cut", params: "(n : Z)", retType: "Z", leaves: map[string]string{"len(snevra)": "n"}}, "snevra")
-		o.hasStmt(dRpm, "", "nevra", "nevra, _ := header.GetNEVRA()", "rpm_nevra_ignores_error")
+		// nevra(): the error of GetNEVRA is looked at before the result is used (relic fix 1e87259)
+		o.hasStmt(dRpm, "", "nevra", "nevra, err := header.GetNEVRA()", "rpm_nevra_keeps_error")
+		o.condOf(funcSpec{dir: dRpm, name: "nevra", coqName: "rpm_nevra_gives_up", params: "(getnevra_failed : bool)", retType: "bool",
+			leaves: map[string]string{"err != nil": "getnevra_failed"}, types: map[string]string{"err != nil": "bool"}}, "if:err")
+		o.hasStmt(dRu, "NEVRA", "String", `return fmt.Sprintf("%s-%s:%s-%s.%s.rpm", nevra.Name, nevra.Epoch, nevra.Version, nevra.Release, nevra.Arch)`, "rpmu_nevra_ends_in_dot_rpm")
+		// server/view_sign.go serveSign: which modules the /sign endpoint refuses (relic fix 57ef5f6)
+		o.condOf(funcSpec{dir: "server", recv: "Server", name: "serveSign", coqName: "srv_refuses_sigtype", params: "(mod_nil sign_nil : bool)", retType: "bool",
+			leaves: map[string]string{"mod == nil": "mod_nil", "mod.Sign == nil": "sign_nil"}, types: map[string]string{"mod == nil": "bool", "mod.Sign == nil": "bool"}}, "if:mod")
+		o.catgArgClasses("server", "Server", "serveSign", "mod.Sign", 0, "srv_sign_args", map[string]int{"counter": 1, "cert": 2, "*opts": 3})
 		o.catgSignerField(dRpm, "RpmSigner", "Verify", "rpm_verify_fn", map[string]int{"verify": 1})
 		o.catgSignerField(dRpm, "RpmSigner", "CertTypes", "rpm_cert_types", map[string]int{"signers.CertTypePgp": 1})
 		// ---- go-rpmutils (third party; constants and size arithmetic only)
@@ -846,7 +854,7 @@ func init() {
 			[3]string{dP7, "", "NewContentInfo"}, [3]string{dP7, "ContentInfoSignedData", "Detach"}, [3]string{dP9, "", "TimestampAndMarshal"},
 			[3]string{dMagic, "", "Detect"}, [3]string{dCosign, "", "sign"}, [3]string{dCosign, "", "newPayload"}, [3]string{dCosign, "", "digestManifest"},
 			[3]string{dCosign, "", "digestPayload"}, [3]string{dCosign, "", "attachCertificates"}, [3]string{dCosign, "", "attachTimestamp"},
-			[3]string{dRpm, "", "sign"}, [3]string{dRpm, "", "verify"}, [3]string{dRpm, "", "nevra"})
+			[3]string{dRpm, "", "sign"}, [3]string{dRpm, "", "verify"}, [3]string{dRpm, "", "nevra"}, [3]string{"server", "Server", "serveSign"})
 		sort.Slice(fps, func(i, j int) bool { return fps[i][0]+fps[i][2] < fps[j][0]+fps[j][2] })
 		for _, f := range fps {
 			fingerprint(f[0], f[1], f[2])
